@@ -15,8 +15,12 @@
      S <ws> <carrier> <type> <value>          | <res> <bufhex>     serialize into a buffer holding c1c2c3
      D <carrier> <type>                       | ok / err:<leaf>    DeserializeValue::type_check
      A (<carrier> <type> <value>)+            | one token per op   SerializedValues::add_value sequence
-     X <rep> <c> <t> <v> <c> <t> <v>          | two tokens         rep copies of the first, then the second
+     X <rep> <c> <t> <v> (<c> <t> <v>)+       | 1 + n tokens       rep copies of the first, then the others
      R <ncols> <type>* <nvals> (<carrier> <value>)* | token / err:<leaf>  SerializedValues::from_serializable
+     T <ncols> <type>* <row carrier Tup[..]> <nrows> | ok:<rows> / err:WrongColumnCount / err:col<i>:<leaf>
+                                                TypedRowIterator::new over a RawRowIterator of real rows
+     C (c<n> | a<n>)+                         | token / err:TooManyValues   SerializedValues::from_closure: n cells
+                                                through make_cell_writer / append_serialize_row of n values
    token = <res>/<count>/<iter>/<len>/<bytes or #fnv1a64>;  res = ok | err:<leaf> *)
 
 exception Parse of string
@@ -287,23 +291,66 @@ let step (s : st) k t v : string * st =
     ("ok", { cs = cs'; cnt = cnt'; len = s.len + added })
   | ((_, _), Some e) -> ("err:" ^ row_err_name e, s)
 
-(* the property on the IMPLEMENTATION's tokens: count = iter everywhere; a failed op leaves
-   count / iter / len / bytes as in the previous token *)
-let tokens_property (toks : string list) : string option =
+(* ---------------------------------------------------------------- property predicates *)
+(* All of them are evaluated on the IMPLEMENTATION's answer.  A finding is [known] when it is of
+   the known class; the class tag is printed only when, in addition, the implementation's output
+   equals the model's (it then IS the known behaviour). *)
+
+type finding = { why : string; known : bool }
+
+let refusal_names = "VectorLen" :: typeck_names
+
+(* one serialisation of value v of carrier k at column type t, answered [res] *)
+let op_finding k t v (res : string) : finding option =
+  if not (has_carrier k v) then None
+  else if res = "ok" then begin
+    if not (val_fits k t v) then
+      Some { why = "accepted a value that is not a value of the column type"; known = val_known k t v }
+    else if populated v && not (spec_compat Ser k t) then
+      Some { why = "accepted a pair outside the specification"; known = known_class k t }
+    else None
+  end else match strip_err res with
+    | Some e when List.mem e refusal_names && val_fits k t v ->
+      Some { why = "refused a value of the column type with " ^ e; known = false }
+    | Some e when List.mem e typeck_names && static k && doc_compat Ser k t ->
+      Some { why = "refused a documented pair with " ^ e; known = false }
+    | _ -> None
+
+(* combine: any finding that is not (known and agreed) makes a plain viol *)
+let conclude ~(agrees : bool) ~(model : string) (fs : finding list) : string =
+  let tail = if agrees then "" else " ; model=" ^ model in
+  match fs with
+  | [] -> if agrees then "ok" else "diff model=" ^ model
+  | _ ->
+    let plain = List.filter (fun f -> not (f.known && agrees)) fs in
+    (match plain with
+     | f :: _ -> "viol " ^ f.why ^ tail
+     | [] -> "viol class=vector-null-element " ^ (List.hd fs).why)
+
+(* the state tokens of a sequence: count = iter everywhere; a failed op leaves count / iter / len /
+   bytes as in the previous token; a successful one counts exactly one more; at 65535 nothing is
+   accepted any more *)
+let tokens_findings (start : (string * string * string * string) option) (toks : string list) : finding list =
   let fields t = String.split_on_char '/' t in
+  let bad why = [{ why; known = false }] in
+  let hx s = try int_of_string ("0x" ^ s) with _ -> -1 in
   let rec go prev = function
-    | [] -> None
+    | [] -> []
     | t :: r ->
       (match fields t with
        | [res; cnt; it; len; b] ->
-         if cnt <> it then Some ("count " ^ cnt ^ " but iter " ^ it ^ " in " ^ t)
-         else if strip_err res <> None && (match prev with
-             | Some (pc, pi, pl, pb) -> (pc, pi, pl, pb) <> (cnt, it, len, b)
-             | None -> (cnt, it, len, b) <> ("0", "0", "0", "-")) then
-           Some ("state changed by a failed add_value: " ^ t)
+         let (pc, pi, pl, pb) = (match prev with Some p -> p | None -> ("0", "0", "0", "-")) in
+         if cnt <> it then bad ("element_count " ^ cnt ^ " but iter().count() " ^ it ^ " in " ^ t)
+         else if strip_err res <> None && (pc, pi, pl, pb) <> (cnt, it, len, b) then
+           bad ("state changed by a failed add_value: " ^ t)
+         else if res = "ok" && hx cnt <> hx pc + 1 then bad ("a successful add_value did not count one more value: " ^ t)
+         else if res = "ok" && hx len < hx pl + 4 then bad ("a successful add_value did not append a cell: " ^ t)
+         else if res = "ok" && hx pc >= 65535 then bad ("a value was accepted beyond 65535: " ^ t)
+         else if hx pc = 65535 && res <> "err:TooManyValues" && strip_err res <> None then
+           bad ("the 65536th value was not refused with TooManyValues: " ^ t)
          else go (Some (cnt, it, len, b)) r
-       | _ -> Some ("malformed token " ^ t))
-  in go None toks
+       | _ -> [])     (* malformed / panic tokens: no property, the comparison with the model decides *)
+  in go start toks
 
 let rec triples = function
   | c :: t :: v :: r -> (carrier_of_string c, type_of_string t, kval_of_string v) :: triples r
@@ -314,6 +361,13 @@ let rec triples = function
 
 let prefix = [n_of_int 0xc1; n_of_int 0xc2; n_of_int 0xc3]
 
+let res_of tok = match String.split_on_char '/' tok with r :: _ -> r | [] -> tok
+
+let tck_names = ["MismatchedType"; "NotSetOrList"; "NotSet"; "NotVector"; "NotMap"; "NotTuple"; "TupleWrongCount";
+                 "NotUdt"; "NotDeserializableToVec"]
+
+let rec take n l = if n = 0 then ([], l) else (match l with x :: r -> let (a, b) = take (n - 1) r in (x :: a, b) | [] -> raise (Parse "too few fields"))
+
 let verdict case impl =
   match case, impl with
   | ["S"; ws; cs; ts; vs], [ires; ibuf] ->
@@ -323,68 +377,60 @@ let verdict case impl =
     let mres = (match me with None -> "ok" | Some e -> "err:" ^ kerr_name e) in
     let mbuf = hexstr_of_bytes mb in
     let agrees = mres = ires && mbuf = ibuf in
-    (* the matrix property on the implementation's answer, for values that reach every position *)
-    let well = has_carrier k v in
-    let prop =
-      if not well then None
-      else if (match k, v with KCqlValue, VLeaf _ -> true | _ -> false) then
-        (* the dynamic carrier: accepted iff the CqlValue is a value of the type *)
-        (match k, v with
-         | KCqlValue, VLeaf x ->
-           if ires = "ok" then
-             (if dyn_fits t x then None
-              else Some ((if dyn_known t x then "class=vector-null-element " else "") ^ "accepted a CqlValue that is not a value of the type"))
-           else (match strip_err ires with
-               | Some e when dyn_fits t x && e <> "SizeOverflow" && e <> "TooManyElements" ->
-                 Some ("refused a CqlValue of the type with " ^ e)
-               | _ -> None)
-         | _ -> None)
-      else if ires = "ok" then
-        (if (populated v || known_class k t) && not (spec_compat Ser k t) then
-           Some ((if known_class k t then "class=vector-null-element " else "") ^ "accepted a pair outside the specification") else None)
-      else (match strip_err ires with
-          | Some e when List.mem e typeck_names && static k && doc_compat Ser k t ->
-            Some ("refused a documented pair with " ^ e)
-          | _ -> None) in
-    (match prop with
-     | Some why ->
-       "viol " ^ why ^ (if agrees then "" else " ; model=" ^ mres ^ " " ^ mbuf)
-     | None -> if agrees then "ok" else "diff model=" ^ mres ^ " " ^ mbuf)
+    let fs = (match op_finding k t v ires with Some f -> [f] | None -> []) in
+    conclude ~agrees ~model:(mres ^ " " ^ mbuf) fs
   | ["D"; cs; ts], [ires] ->
     let k = carrier_of_string cs and t = type_of_string ts in
     (match deser_check k t with
      | Some TE_NoImpl -> "error carrier-has-no-deserialize-impl-in-the-model"
      | r ->
        let mres = (match r with None -> "ok" | Some e -> "err:" ^ tck_name e) in
-       let impl_acc = (ires = "ok") in
+       let recognised = ires = "ok" || (match strip_err ires with Some e -> List.mem e tck_names | None -> false) in
        if not (deser_impl k) then "error deser_impl-false"
-       else if not (deser_cell_ok k t impl_acc) then
-         "viol " ^ (if impl_acc then "accepted a pair outside the documentation" else "refused a documented pair with " ^ ires)
-         ^ (if mres = ires then "" else " ; model=" ^ mres)
-       else if mres = ires then "ok" else "diff model=" ^ mres)
+       else
+         let fs = if recognised && not (deser_cell_ok k t (ires = "ok")) then
+             [{ why = (if ires = "ok" then "type_check accepted a pair outside the documentation"
+                       else "type_check refused a documented pair with " ^ ires); known = false }] else [] in
+         conclude ~agrees:(mres = ires) ~model:mres fs)
   | "A" :: ops, toks ->
     let ops = triples ops in
     let (_, mtoks) = List.fold_left (fun (s, acc) (k, t, v) ->
         let (res, s') = step s k t v in (s', token_of res s' :: acc)) (st0, []) ops in
     let mtoks = List.rev mtoks in
-    (match tokens_property toks with
-     | Some why -> "viol " ^ why ^ (if mtoks = toks then "" else " ; model=" ^ String.concat " " mtoks)
-     | None -> if mtoks = toks then "ok" else "diff model=" ^ String.concat " " mtoks)
-  | ["X"; rep; c1; t1; v1; c2; t2; v2], [tok1; tok2] ->
+    let agrees = mtoks = toks in
+    let per_op = if List.length toks = List.length ops then
+        List.concat (List.map2 (fun (k, t, v) tok -> match op_finding k t v (res_of tok) with Some f -> [f] | None -> []) ops toks)
+      else [] in
+    conclude ~agrees ~model:(String.concat " " mtoks) (tokens_findings None toks @ per_op)
+  | "X" :: rep :: c1 :: t1 :: v1 :: others, tok1 :: toks ->
     let rep = int_of_string ("0x" ^ rep) in
     let (k1, t1, v1) = (carrier_of_string c1, type_of_string t1, kval_of_string v1) in
-    let (k2, t2, v2) = (carrier_of_string c2, type_of_string t2, kval_of_string v2) in
+    let ops = triples others in
     let s = ref st0 and last = ref "ok" in
     for _ = 1 to rep do let (r, s') = step !s k1 t1 v1 in s := s'; last := r done;
     let m1 = token_of !last !s in
-    let (r2, s2) = step !s k2 t2 v2 in
-    let m2 = token_of r2 s2 in
-    (match tokens_property [tok1; tok2] with
-     | Some why -> "viol " ^ why ^ (if [m1; m2] = [tok1; tok2] then "" else " ; model=" ^ m1 ^ " " ^ m2)
-     | None -> if [m1; m2] = [tok1; tok2] then "ok" else "diff model=" ^ m1 ^ " " ^ m2)
+    let (_, mtoks) = List.fold_left (fun (s, acc) (k, t, v) ->
+        let (res, s') = step s k t v in (s', token_of res s' :: acc)) (!s, []) ops in
+    let mtoks = m1 :: List.rev mtoks in
+    let itoks = tok1 :: toks in
+    let agrees = mtoks = itoks in
+    (* the first token is the state after [rep] adds: it must count them all *)
+    let first = (match String.split_on_char '/' tok1 with
+        | [_; cnt; it; _; _] ->
+          if cnt <> it then [{ why = "element_count " ^ cnt ^ " but iter().count() " ^ it; known = false }]
+          else if !last = "ok" && rep <= 65535 && cnt <> Printf.sprintf "%x" rep && op_finding k1 t1 v1 "ok" = None then
+            [{ why = "after " ^ string_of_int rep ^ " accepted values the count is " ^ cnt; known = false }]
+          else []
+        | _ -> []) in
+    let start = (match String.split_on_char '/' tok1 with [_; c; i; l; b] -> Some (c, i, l, b) | _ -> None) in
+    let per_op = if List.length toks = List.length ops then
+        List.concat (List.map2 (fun (k, t, v) tok ->
+            if res_of tok = "err:TooManyValues" then [] else
+            match op_finding k t v (res_of tok) with Some f -> [f] | None -> []) ops toks)
+      else [] in
+    conclude ~agrees ~model:(String.concat " " mtoks) (first @ tokens_findings start toks @ per_op)
   | "R" :: ncols :: rest, [ires] ->
     let ncols = int_of_string ("0x" ^ ncols) in
-    let rec take n l = if n = 0 then ([], l) else (match l with x :: r -> let (a, b) = take (n - 1) r in (x :: a, b) | [] -> raise (Parse "R cols")) in
     let (cols, rest) = take ncols rest in
     let cols = List.map type_of_string cols in
     let vals = (match rest with
@@ -401,15 +447,70 @@ let verdict case impl =
           let len = list_len b 0 in
           let it = (match sv_iter s with Some cells -> Printf.sprintf "%x" (list_len cells 0) | None -> "panic") in
           Printf.sprintf "ok/%s/%s/%x/%s" (hex_of_n s.sv_count) it len (if len <= 128 then hexstr_of_bytes b else fnv b)) in
-    let prop = (match String.split_on_char '/' ires with
+    let same_count = List.length cols = List.length vals in
+    let all_fit = same_count && List.for_all2 (fun t (k, v) -> (not (has_carrier k v)) || val_fits k t v) cols vals in
+    let all_well = List.for_all (fun (k, v) -> has_carrier k v) vals in
+    let bad why = [{ why; known = false }] in
+    let fs = (match String.split_on_char '/' ires with
         | ["ok"; cnt; it; _; _] ->
-          if cnt <> it then Some ("count " ^ cnt ^ " but iter " ^ it)
-          else if cnt <> Printf.sprintf "%x" (List.length vals) then Some "count differs from the number of values"
-          else None
-        | _ -> None) in
-    (match prop with
-     | Some why -> "viol " ^ why ^ (if mres = ires then "" else " ; model=" ^ mres)
-     | None -> if mres = ires then "ok" else "diff model=" ^ mres)
+          if cnt <> it then bad ("element_count " ^ cnt ^ " but iter().count() " ^ it)
+          else if cnt <> Printf.sprintf "%x" (List.length vals) then bad "count differs from the number of values"
+          else if not same_count then bad "a row with the wrong number of values was accepted"
+          else if all_well then
+            List.concat (List.map2 (fun t (k, v) -> match op_finding k t v "ok" with Some f -> [f] | None -> []) cols vals)
+          else []
+        | [e] when e = "err:WrongColumnCount" && same_count -> bad "a row with the right number of values was refused with WrongColumnCount"
+        | [e] when all_well && all_fit && (match strip_err e with Some x -> List.mem x refusal_names | None -> false) ->
+          bad ("a row of values of the column types was refused with " ^ e)
+        | _ -> []) in
+    conclude ~agrees:(mres = ires) ~model:mres fs
+  | "T" :: ncols :: rest, [ires] ->
+    let ncols = int_of_string ("0x" ^ ncols) in
+    let (cols, rest) = take ncols rest in
+    let cols = List.map type_of_string cols in
+    (match rest with
+     | [rc; nrows] ->
+       let ks = (match carrier_of_string rc with KTuple ks -> ks | _ -> raise (Parse "row carrier")) in
+       let nrows = n_of_hex nrows in
+       let mres = (match typed_rows ks cols nrows with
+           | Ok n -> "ok:" ^ hex_of_n n
+           | Err RK_WrongColumnCount -> "err:WrongColumnCount"
+           | Err (RK_Column (i, e)) -> Printf.sprintf "err:col%d:%s" (int_of_nat i) (tck_name e)
+           | Err RK_Ok -> "error") in
+       if not (List.for_all deser_impl ks) then "error deser_impl-false" else
+       (* the specification, not the model: the documented compatibility of every column *)
+       let documented = List.length ks = List.length cols && List.for_all2 (fun k t -> doc_compat De k t) ks cols in
+       let is_ok = String.length ires >= 3 && String.sub ires 0 3 = "ok:" in
+       let is_tck = (match strip_err ires with
+           | Some "WrongColumnCount" -> true
+           | Some e -> (match String.split_on_char ':' e with [_; leaf] -> List.mem leaf tck_names | _ -> false)
+           | None -> false) in
+       let fs =
+         if is_ok && not documented then
+           [{ why = "rows were handed to deserialize over columns the row type does not fit"; known = false }]
+         else if is_tck && documented then [{ why = "a documented row type was refused with " ^ ires; known = false }]
+         else [] in
+       conclude ~agrees:(mres = ires) ~model:mres fs
+     | _ -> "error bad T case")
+  | "C" :: parts, [ires] ->
+    let sizes = List.map (fun p -> n_of_hex (String.sub p 1 (String.length p - 1))) parts in
+    let total = List.fold_left (fun a p -> a + int_of_n p) 0 sizes in
+    let mres = (match closure_count sizes with
+        | Err e -> "err:" ^ row_err_name e
+        | Ok n ->
+          let cnt = int_of_n n in
+          let rec cells i acc = if i = 0 then acc else cells (i - 1) (null_marker @ acc) in
+          let b = cells cnt [] in
+          Printf.sprintf "ok/%x/%x/%x/%s" cnt cnt (4 * cnt) (if 4 * cnt <= 128 then hexstr_of_bytes b else fnv b)) in
+    let bad why = [{ why; known = false }] in
+    let fs = (match String.split_on_char '/' ires with
+        | ["ok"; cnt; it; _; _] ->
+          if cnt <> it then bad ("element_count " ^ cnt ^ " but iter().count() " ^ it)
+          else if cnt <> Printf.sprintf "%x" total then bad (Printf.sprintf "%d values were written, the count says %s" total cnt)
+          else []
+        | ["err:TooManyValues"] when total <= 65535 -> bad "TooManyValues for at most 65535 values"
+        | _ -> []) in
+    conclude ~agrees:(mres = ires) ~model:mres fs
   | _ -> "error unknown-case"
 
 let () = run_lines verdict
